@@ -190,6 +190,126 @@ Proof.
   cbn [fst snd app] in *. split; [|exact N]. rewrite F. rewrite !rev_app_distr, <- !app_assoc. reflexivity.
 Qed.
 
+(* ---- Arrow: the parser's events and the resolver's clauses are those of an anonymous function ---------------- *)
+Lemma run_ok_arrow ps b k : run_ok (Func None ps b k) -> run_ok (Arrow ps b k).
+Proof. intros H a fr pr rest. exact (H a fr pr rest). Qed.
+
+(* ---- Catch ----------------------------------------------------------------------------------------------------- *)
+Lemma resolve_catch_params e fs cur n hd :
+  catch_params_only hd = true ->
+  resolve e fs cur false n hd = (map (TBind cur false) (headdecls hd), n).
+Proof.
+  induction hd; cbn; intros H; try discriminate; [reflexivity|].
+  destruct d; try discriminate. rewrite (IHhd H). reflexivity.
+Qed.
+
+Lemma catch_params_lin hd : catch_params_only hd = true -> linearise hd = map (EDeclare CatchDecl) (headdecls hd).
+Proof.
+  induction hd; cbn; intros H; try discriminate; [reflexivity|].
+  destruct d; try discriminate. cbn. rewrite (IHhd H). reflexivity.
+Qed.
+
+Lemma catch_params_lexvar hd : catch_params_only hd = true -> lexdecls hd = [] /\ vardecls hd = [].
+Proof.
+  induction hd; cbn; intros H; try discriminate; [split; reflexivity|].
+  destruct d; try discriminate. cbn. apply IHhd. exact H.
+Qed.
+
+Lemma run_catch_params : forall names a fr pr rest,
+  AInv a ((fr, pr) :: rest) -> NoDup names ->
+  (forall x, In x names -> In x (plex pr) /\ ~ In x (dnames fr)) ->
+  exists a' fr',
+    arun a (map (EDeclare CatchDecl) names) = ARun a' /\ AInv a' ((fr', pr) :: rest) /\
+    fid fr' = fid fr /\ fisfunc fr' = fisfunc fr /\ dnames fr' = dnames fr ++ names /\
+    anext a' = anext a /\
+    map (final (env_of ((fr, pr) :: rest))) (alog a')
+    = rev (map (TBind (fid fr) false) names) ++ map (final (env_of ((fr, pr) :: rest))) (alog a).
+Proof.
+  induction names as [|x names IH]; intros a fr pr rest A Hnd Hin.
+  - exists a, fr. cbn. rewrite app_nil_r. split; [reflexivity|]. split; [exact A|]. repeat split; reflexivity.
+  - inversion Hnd as [|? ? Hx Hnd']; subst. destruct (Hin x (or_introl eq_refl)) as [Hp Hn].
+    destruct (L_decl_top a fr pr rest CatchDecl x A (or_intror (or_intror eq_refl)) Hn) as (a1 & fr1 & H1 & A1 & E1 & E2 & E3 & E4 & E5 & E6).
+    { unfold pnames. apply in_app_iff. right. exact Hp. } { intros _. exact Hp. } { discriminate. }
+    destruct (IH a1 fr1 pr rest A1 Hnd') as (a' & fr' & H2 & A' & F1 & F2 & F3 & F5 & F6).
+    { intros y Hy. destruct (Hin y (or_intror Hy)) as [Hyp Hyn]. split; [exact Hyp|]. rewrite E3. intros Hi. apply in_app_last in Hi.
+      destruct Hi as [Hi| ->]; contradiction. }
+    exists a', fr'. cbn [map arun astep]. unfold NoDecl, CatchDecl in *. cbn [Z.eqb]. rewrite H1. split; [exact H2|]. split; [exact A'|].
+    split; [congruence|]. split; [congruence|]. split; [rewrite F3, E3, <- app_assoc; reflexivity|]. split; [congruence|].
+    assert (Eenv : env_of ((fr1, pr) :: rest) = env_of ((fr, pr) :: rest)) by (cbn; rewrite E1; reflexivity).
+    rewrite Eenv in F6. rewrite F6, E6. rewrite E1. cbn [map rev]. rewrite <- app_assoc. reflexivity.
+Qed.
+
+Lemma run_ok_catch hd b k :
+  catch_params_only hd = true -> disjointb (headdecls hd) (vardecls b) = true ->
+  run_ok b -> run_ok k -> run_ok (Catch hd b k).
+Proof.
+  intros Hhd Hdisj IHb IHk a fr pr rest A Hnd Hlex Hvar Hok.
+  destruct (catch_params_lexvar hd Hhd) as [Ehl Ehv].
+  cbn [lexdecls] in Hnd, Hlex. cbn [vardecls] in Hvar. rewrite Ehv in Hvar. cbn [app] in Hvar. cbn [spec_ok] in Hok.
+  apply andb_true_iff in Hok. destruct Hok as [Hok Hokk]. apply andb_true_iff in Hok. destruct Hok as [Hok Hokb].
+  apply andb_true_iff in Hok. destruct Hok as [Hok _]. apply andb_true_iff in Hok. destruct Hok as [Hndp Hsc].
+  apply nodupb_NoDup in Hndp. destruct (scope_ok_spec (headdecls hd) b Hsc) as (Hndb & Hlv & Hlh).
+  pose proof (disjointb_spec _ _ Hdisj) as Hhv.
+  set (prC := mkPr (headdecls hd ++ lexdecls b) []).
+  destruct (L_enter a ((fr, pr) :: rest) false prC A) as (a1 & H1 & A1 & El1 & En1).
+  { intros y _ []. }
+  set (C0 := mkF (anext a) false [] [] O) in *.
+  destruct (run_catch_params (headdecls hd) a1 C0 prC ((fr, pr) :: rest) A1 Hndp) as (a2 & C2 & R2 & A2 & E1 & E2 & E3 & En2 & Fp).
+  { intros y Hy. split; [cbn [plex prC]; apply in_app_iff; left; exact Hy|intros []]. }
+  cbn [fid fisfunc C0] in E1, E2. cbn [dnames fdecl C0 map app] in E3.
+  destruct (IHb a2 C2 prC ((fr, pr) :: rest) A2 Hndb) as (a3 & C' & z1 & R3 & A3 & G3 & P1b & P2b & F3 & N3).
+  { intros y Hy. split; [cbn [plex prC]; apply in_app_iff; right; exact Hy|]. rewrite E3. apply Hlh. exact Hy. }
+  { intros y Hy. cbn [var_ok]. rewrite E2. split.
+    - unfold pnames. cbn [pvar plex prC app]. intros Hi. apply in_app_iff in Hi. destruct Hi as [Hi|Hi]; [apply (Hhv y Hi Hy)|apply (Hlv y Hi Hy)].
+    - apply Hvar. apply in_app_iff. left. exact Hy. }
+  { exact Hokb. }
+  pose proof (grow_shape _ _ _ _ G3) as Hs3. cbn [shape map fst snd] in Hs3. injection Hs3 as HfidC HfC Hs3.
+  destruct (shape_cons_inv z1 fr pr rest Hs3) as (P' & rest1 & -> & _ & _ & _).
+  destruct G3 as [_ (G3i & G3b & G3r)]. cbn [grow_rest] in G3r. destruct G3r as [Gp Gr].
+  assert (Eb2 : below (vardecls b) (C2, prC) = vardecls b) by (unfold below; cbn [fst]; rewrite E2; reflexivity).
+  rewrite Eb2 in Gp. rewrite Eb2 in Gr.
+  assert (Eb' : below (vardecls b) (C', prC) = vardecls b) by (unfold below; cbn [fst]; rewrite HfC, E2; reflexivity).
+  assert (HfidC' : fid C' = anext a) by congruence.
+  assert (Epn : pnames prC = headdecls hd ++ lexdecls b) by reflexivity.
+  assert (Eenv2 : env_of ((C2, prC) :: (fr, pr) :: rest)
+                  = (anext a, false, headdecls hd ++ lexdecls b) :: env_of ((fr, pr) :: rest)).
+  { cbn [env_of map fst snd]. rewrite E1. reflexivity. }
+  assert (Efun2 : func_of ((C2, prC) :: (fr, pr) :: rest) = func_of ((fr, pr) :: rest)) by (cbn [func_of]; rewrite E2; reflexivity).
+  assert (Eenv0 : env_of ((C0, prC) :: (fr, pr) :: rest)
+                  = (anext a, false, headdecls hd ++ lexdecls b) :: env_of ((fr, pr) :: rest)) by reflexivity.
+  rewrite Eenv2, Efun2, E1, En2, En1 in F3, N3. rewrite Eenv0, El1 in Fp. cbn [fid C0] in Fp. rewrite Fp in F3.
+  remember (resolve ((anext a, false, headdecls hd ++ lexdecls b) :: env_of ((fr, pr) :: rest))
+                    (func_of ((fr, pr) :: rest)) (anext a) false (S (anext a)) b) as RB eqn:HeqRB.
+  assert (Hle : (anext a <= snd RB)%nat).
+  { rewrite <- N3. destruct A3 as [_ _ An _]. pose proof (An (C', prC) (or_introl eq_refl)) as H. cbn [fst] in H. lia. }
+  destruct (after_scope k (vardecls b) IHk a fr pr rest a3 C' prC P' rest1 (headdecls hd ++ lexdecls b)
+              (map (TBind (anext a) false) (headdecls hd) ++ fst RB) (snd RB) A A3 HfidC' Epn Hs3)
+    as (a' & fr' & rest' & R & A' & G & P1 & P2 & Pf & F & N).
+  { rewrite Eb'. exact Gp. }
+  { rewrite Eb'. exact Gr. }
+  { intros y Hy. rewrite Epn in Hy. apply in_app_iff in Hy. destruct Hy as [Hy|Hy].
+    - apply G3i. unfold dn. cbn [fst]. rewrite E3. exact Hy.
+    - apply P1b. exact Hy. }
+  { rewrite F3, rev_app_distr, <- app_assoc. reflexivity. }
+  { exact N3. }
+  { exact Hle. }
+  { exact Hnd. } { exact Hlex. }
+  { rewrite Eb'. intros y Hy. apply Hvar. apply in_app_iff. left. exact Hy. }
+  { intros y Hy. apply Hvar. apply in_app_iff. right. exact Hy. }
+  { exact Hokk. }
+  exists a', fr', rest'. split.
+  { cbn [linearise arun astep]. rewrite H1. rewrite arun_app. rewrite (catch_params_lin hd Hhd), R2.
+    rewrite arun_app, R3. exact R. }
+  split; [exact A'|]. split.
+  { cbn [vardecls]. rewrite Ehv. cbn [app]. rewrite Eb' in G. exact G. }
+  split; [exact P1|]. split.
+  { cbn [vardecls]. rewrite Ehv. cbn [app]. intros y Hy. apply in_app_iff in Hy. destruct Hy as [Hy|Hy]; [|apply P2; exact Hy].
+    apply Pf. specialize (P2b y Hy). cbn [func_dnames] in P2b. rewrite HfC, E2 in P2b. exact P2b. }
+  cbn [resolve]. rewrite (resolve_catch_params _ _ _ _ _ Hhd). rewrite <- HeqRB. destruct RB as [rb n1]. cbn [fst snd] in *.
+  destruct (resolve (env_of ((fr, pr) :: rest)) (func_of ((fr, pr) :: rest)) (fid fr) false n1 k) as [rk n2].
+  cbn [fst snd app] in *. split; [|exact N]. rewrite F. rewrite !rev_app_distr, <- !app_assoc. reflexivity.
+Qed.
+
 (* ---- the fragment ---------------------------------------------------------------------------------------------- *)
 Theorem run_core p : core p = true -> run_ok p.
 Proof.
@@ -205,4 +325,9 @@ Proof.
   - apply andb_true_iff in Hc. destruct Hc as [H1 H2]. apply run_ok_block; [apply IHp1; exact H1|apply IHp2; exact H2].
   - destruct nm; [discriminate|]. apply andb_true_iff in Hc. destruct Hc as [Hc H3]. apply andb_true_iff in Hc. destruct Hc as [H1 H2].
     apply run_ok_func; [exact H1|apply IHp2; exact H2|apply IHp3; exact H3].
+  - apply andb_true_iff in Hc. destruct Hc as [Hc H3]. apply andb_true_iff in Hc. destruct Hc as [H1 H2].
+    apply run_ok_arrow. apply run_ok_func; [exact H1|apply IHp2; exact H2|apply IHp3; exact H3].
+  - apply andb_true_iff in Hc. destruct Hc as [Hc H4]. apply andb_true_iff in Hc. destruct Hc as [Hc H3].
+    apply andb_true_iff in Hc. destruct Hc as [H1 H2].
+    apply run_ok_catch; [exact H1|exact H2|apply IHp2; exact H3|apply IHp3; exact H4].
 Qed.
